@@ -411,6 +411,12 @@ def add_net_history(rng, case, xs, ys, nx, ny, rects):
     def with_rects():
         return [m for m in mods if m[4]]
 
+    def disjoint(rs):
+        """the rectangles of ONE module must not overlap (Netlist._create_rectangles refuses such a hard module: the
+        netlist itself would be inconsistent, which is not the die's subject)"""
+        bs = [box4(r) for r in rs]
+        return all(ovl(bs[i], bs[j]) == (F(0), F(0)) for i in range(len(bs)) for j in range(i + 1, len(bs)))
+
     def gen_one():
         kind = rng.choices(["assign", "fixed", "hard", "move", "recenter", "squares", "read", "die"], [30, 22, 6, 14, 12, 8, 4, 4])[0]
         if kind == "assign":
@@ -431,6 +437,8 @@ def add_net_history(rng, case, xs, ys, nx, ny, rects):
                 new = [geom_of(spare.pop())]
             else:
                 return
+            if not disjoint(new):
+                return
             emit({"op": "assign", "mod": m[0], "rects": [list(r) for r in new]})
         elif kind == "fixed":
             cands = with_rects()
@@ -446,8 +454,9 @@ def add_net_history(rng, case, xs, ys, nx, ny, rects):
             cands = with_rects()
             if cands and spare:
                 m = rng.choice(cands)
-                emit({"op": "move", "mod": m[0], "old": list(rng.choice(m[4])), "new": geom_of(spare.pop()),
-                      "how": rng.choice(["objects", "inplace"])})
+                old, new = rng.choice(m[4]), geom_of(spare.pop())
+                if disjoint([r for r in m[4] if r is not old] + [new]):
+                    emit({"op": "move", "mod": m[0], "old": list(old), "new": new, "how": rng.choice(["objects", "inplace"])})
         elif kind == "recenter":
             cands = [m for m in with_rects() if m[0][0] in "MH"]
             if not cands:
